@@ -245,6 +245,35 @@ def _GridWorld(case, rng):
         case.count("gridworld_accessor_sets_checked")
         if bad is not case.FAIL:
             case.check(not bad, "gridworld:accessor-disagrees-with-layout", lambda: f"{bad!r} layout {rows!r}")
+
+        # a caller may do what it likes with the lists it was handed (the physics is checked AFTER this)
+        def scribble():
+            gw.walls.clear()
+            gw.absorbing_states.extend(list(gw.initial_states))
+            lst = gw.initial_states
+            if lst:
+                lst.pop()
+            gw.walls.append(frozendict({"x": 0, "y": 0}))
+        case.call("caller edits the returned lists", scribble)
+
+        # the same cell written with its keys in the other order is the same state
+        def key_order():
+            bad2 = []
+            for s_ in list(gw.state_list)[:12]:
+                if s_ == TERMINALSTATE:
+                    continue
+                s2 = frozendict({"y": s_["y"], "x": s_["x"]})
+                for a_ in gw.actions(s_):
+                    a2 = frozendict({"dy": a_["dy"], "dx": a_["dx"]}) if rng.random() < 0.5 else frozendict({"dx": a_["dx"], "dy": a_["dy"]})
+                    d1 = {k: v for k, v in gw.next_state_dist(s_, a_).items() if v > 0}
+                    d2 = {k: v for k, v in gw.next_state_dist(s2, a2).items() if v > 0}
+                    if d1 != d2:
+                        bad2.append((dict(s_), dict(a_), d1, d2))
+            return bad2
+        bad2 = case.call("next_state_dist(keys in the other order)", key_order)
+        case.count("gridworld_key_order_checks")
+        if bad2 is not case.FAIL:
+            case.check(not bad2, "gridworld:transition-depends-on-the-key-order-of-an-equal-state", lambda: f"{bad2[:1]!r}")
     return gw, params, dict(physics=physics if gw is not case.FAIL else None)
 
 
